@@ -13,6 +13,11 @@
 (*                     (it was already closed by the operator)                        *)
 (*   "lookupDiesOnCancel" the secret provider no longer answers after cancellation    *)
 (*                     (breaks the liveness property ShutdownCompletes)                *)
+(*   "pollOnlyOnTimeout" the accept loop polls its context only after an Accept that   *)
+(*                     timed out (breaks PollsContextBetweenAccepts)                   *)
+(*   "peerNeverReads"  environment, not implementation: a peer that never reads its    *)
+(*                     replies blocks the handler's write for ever (no write deadline  *)
+(*                     exists) - ShutdownCompletes needs peers that read               *)
 (*   "gaugeStoreRace"  the exported goroutine gauge is STORED from a separately        *)
 (*                     updated counter (two steps) instead of being decremented        *)
 EXTENDS Integers, Sequences, FiniteSets, TLC
@@ -130,7 +135,10 @@ ReadDone(c) == /\ cs[c] = "read" /\ inp[c] \in {"packet", "eof"}
                /\ cs' = [cs EXCEPT ![c] = IF inp[c] = "packet" THEN "handler" ELSE "exit"]
                /\ inp' = [inp EXCEPT ![c] = "none"] /\ hgate' = [hgate EXCEPT ![c] = FALSE]
                /\ UNCHANGED << ctx, acc, lis, offered, armed, gate, wg, gAcc, gWg, pset, npk, sched >>
-HandlerDone(c) == /\ cs[c] = "handler" /\ hgate[c] /\ cs' = [cs EXCEPT ![c] = "loop"]
+\* the handler's reply is written with no write deadline (crypt.go write): with the switch "peerNeverReads" the peer has stopped
+\* reading and its receive window is full, so the write - and with it the handler - never finishes. Not a defect switch but the
+\* environment assumption ShutdownCompletes rests on, shown to be necessary (control in the C17 check)
+HandlerDone(c) == /\ cs[c] = "handler" /\ hgate[c] /\ ~D("peerNeverReads") /\ cs' = [cs EXCEPT ![c] = "loop"]
                   /\ UNCHANGED << ctx, acc, lis, offered, armed, inp, gate, hgate, wg, gAcc, gWg, pset, npk, sched >>
 \* waitGroup.Done: the gauge is decremented (an atomic read-modify-write of the gauge itself) with the counter
 Exit(c) == /\ cs[c] = "exit" /\ gAcc' = gAcc - 1 /\ wg' = wg - 1
